@@ -140,8 +140,12 @@ def do_call(nrf, chip, op, a):
 
 def reenter(nrf, chip):
     pre = state(chip)
-    nrf.__enter__()
-    return dict(k="reenter", pre=pre, post=state(chip))
+    exc = "none"
+    try:
+        nrf.__enter__()
+    except Exception as e:  # noqa  (a shadow holding a value that cannot even be written)
+        exc = type(e).__name__
+    return dict(k="reenter", pre=pre, post=state(chip), exc=exc)
 
 
 def arg_repr(a):
